@@ -714,3 +714,20 @@ Proof.
          end; try (vm_compute; reflexivity); try lia; try (left; reflexivity); try (right; reflexivity); try reflexivity;
     try (apply N.leb_le; vm_compute; reflexivity); try (apply N.ltb_lt; vm_compute; reflexivity).
 Qed.
+
+(* C17 at the level of the judge, before anything exists: an open of a series that is not there - any name, any demanded payload
+   size and header, any cache levels (bucket sizes >= 1) - is answered with an error by the model, accepted by the judge, creates
+   no file, and leaves both sides where they were: whatever session follows (e.g. the create) is judged as before *)
+Theorem open_missing_accepted name popt hdropt (caches:list N) cb rest :
+  existsb (fun B => (B =? 0)%N) caches = false ->
+  accepted init_world judge_init rest -> accepted init_world judge_init (OOpen name popt hdropt caches cb :: rest).
+Proof.
+  intros NZ A.
+  assert (E : step' init_world (OOpen name popt hdropt caches cb) = (init_world, RErr ENotFound)).
+  { cbn [step' step w_fs init_world]. rewrite (builder_open_missing [] name popt hdropt caches cb eq_refl). reflexivity. }
+  assert (J : judge_step judge_init (OOpen name popt hdropt caches cb) = (judge_init, is_err)).
+  { unfold judge_step, spec_step, judge_init, spec_init. cbn [ss_h spec_step']. unfold spec_open, close_handle, expected_files.
+    cbn [ss_h ss_fs ss_orig ss_det]. rewrite NZ. reflexivity. }
+  cbn [accepted]. rewrite E, J. cbn [fst snd is_err].
+  split; [reflexivity|]. split; [intros g; reflexivity|]. split; [reflexivity|exact A].
+Qed.
